@@ -871,39 +871,62 @@ def _scheme(repo, col):
     col.check("axial_conductances" in kw and is_param_sub(kw["axial_conductances"], "params", "axial_conductances"), R, fi,
               "axial_conductances = params['axial_conductances']", "", "axial conductances are not taken from params", node=d)
     # solver-specific kwargs and binding through **
-    updates = [s for s in ex.stores if s.kind == "mcall" and s.key.name == "update" and unparse(s.node.func.value) == "solver_kwargs"]
-    if len(updates) != 2:
-        raise AnalysisError("Module.step: the two solver_kwargs.update(...) calls were not found")
+    # the dictionary handed to the stepper: its display plus every `.update({...})` on it, each with the voltage_solver case it
+    # runs in (polarity of the `voltage_solver == "jax.sparse"` guard, however the if/else is arranged)
+    def sparse_case(guards):
+        """True: only for jax.sparse, False: only for the other back ends, None: both"""
+        for g in guards:
+            neg = False
+            while g.op == "not" or (g.op == "unary" and g.name == "Not"):
+                neg, g = not neg, g.args[0]
+            if g.op == "cmp" and g.name in ("==", "!=") and any(a_.op == "const" and a_.name == "jax.sparse" for a_ in g.args):
+                v = g.name == "=="
+                return (not v) if neg else v
+        return None
+
+    updates = [s_ for s_ in ex.stores if s_.kind == "mcall" and s_.key.name == "update" and isinstance(s_.node.func.value, ast.Name)
+               and s_.node.func.value.id == "solver_kwargs" and s_.node.args and isinstance(s_.node.args[0], ast.Dict)]
+    if not updates:
+        raise AnalysisError("Module.step: the solver_kwargs.update(...) calls were not found")
     base_keys = set(kw)
-    for s in updates:
-        dn = s.node.args[0]
-        keys = {k.value for k in dn.keys if isinstance(k, ast.Constant)}
-        is_sparse = any(key_is_sparse(g) for g in s.guards)
-        target = "step_voltage_implicit_with_jax_spsolve" if is_sparse else "step_voltage_implicit_with_jaxley_spsolve"
+    keys_for = {True: set(base_keys), False: set(base_keys)}
+    dict_nodes = [(None, d)]
+    for s_ in updates:
+        dn = s_.node.args[0]
+        case = sparse_case(s_.guards)
+        dict_nodes.append((case, dn))
+        ks = {k.value for k in dn.keys if isinstance(k, ast.Constant)}
+        for c_ in ((True, False) if case is None else (case,)):
+            keys_for[c_] |= ks
+    for is_sparse, target in ((True, "step_voltage_implicit_with_jax_spsolve"), (False, "step_voltage_implicit_with_jaxley_spsolve")):
         tf = repo.func(SV, target)
         need = set(tf.params)
-        have = base_keys | keys | {"delta_t"}
+        have = keys_for[is_sparse] | {"delta_t"}
         col.check(have == need, R, fi, f"solver_kwargs binds exactly the parameters of {target}",
                   f"{sorted(have)}", f"keys {sorted(have)} vs parameters {sorted(need)}: missing {sorted(need - have)}, "
-                                     f"unexpected {sorted(have - need)}", node=dn)
-        # comp-edge columns go to the parameter of the same meaning
-        colmap = {"sinks": "sink", "sources": "source", "types": "type"}
+                                     f"unexpected {sorted(have - need)}", node=d)
+    # comp-edge columns go to the parameter of the same meaning
+    colmap = {"sinks": "sink", "sources": "source", "types": "type"}
+    for case, dn in dict_nodes:
         for k, v in zip(dn.keys, dn.values):
             if isinstance(k, ast.Constant) and k.value in colmap:
-                txt = unparse(v)
-                col.check(f"self._comp_edges['{colmap[k.value]}']" in txt, R, fi, f"{k.value} <- _comp_edges['{colmap[k.value]}'] ({target.split('_')[-2]})",
-                          txt, f"`{k.value}` is filled from {txt}", node=v)
-        # which implicit stepper is selected
-        sel = [n for n in ast.walk(fn) if isinstance(n, ast.Assign) and unparse(n.targets[0]) == "step_voltage_implicit"]
+                vt = ex.term(v)
+                okc = T.find(vt, lambda x: x.op == "sub" and x.args[0].op == "attr" and x.args[0].name == "_comp_edges" and
+                             x.args[1].op == "const" and x.args[1].name == colmap[k.value]) is not None
+                col.check(okc, R, fi, f"{k.value} <- _comp_edges['{colmap[k.value]}'] ({'all' if case is None else ('jax.sparse' if case else 'custom solver')})",
+                          vt.short(60), f"`{k.value}` is filled from {vt.short(80)}", node=v)
+    # which implicit stepper is selected: the callee of the implicit call, as a function of voltage_solver
+    from sa.terms import canon as _canon
     sels = {}
-    for n in ast.walk(fn):
-        if isinstance(n, ast.If) and key_is_sparse_ast(n.test):
-            for b in n.body:
-                if isinstance(b, ast.Assign) and unparse(b.targets[0]) == "step_voltage_implicit":
-                    sels["jax.sparse"] = unparse(b.value)
-            for b in n.orelse:
-                if isinstance(b, ast.Assign) and unparse(b.targets[0]) == "step_voltage_implicit":
-                    sels["other"] = unparse(b.value)
+    for s_ in ex.stores:
+        if s_.kind == "sub" and s_.key.op == "const" and s_.key.name == "v" and s_.value is not None:
+            for h in [x for x in s_.value.walk() if x.op == "callv"]:
+                f_ = _canon(h.args[0])
+                if f_.op == "ifexp" and sparse_case([f_.args[0]]) is not None:
+                    pol = sparse_case([f_.args[0]])
+                    a_, b_ = (f_.args[1], f_.args[2]) if pol else (f_.args[2], f_.args[1])
+                    sels = {"jax.sparse": a_.name if a_.op in ("free", "name", "global") else a_.short(40),
+                            "other": b_.name if b_.op in ("free", "name", "global") else b_.short(40)}
     col.check(sels == {"jax.sparse": "step_voltage_implicit_with_jax_spsolve", "other": "step_voltage_implicit_with_jaxley_spsolve"},
               R, fi, "implicit stepper per voltage_solver", str(sels), f"steppers are {sels}", node=fn)
     # the three schemes
